@@ -4,22 +4,26 @@ def H(name, clause, kind="complete", tier="quick", timeout=900, replay=True, cov
     return d
 
 M = "__verif_c01_macros"
-BOUND = "<= 3 local installs, <= 6 program steps over {guard install, with_local_recorder open/close, drop guard i, mem::forget guard i, emit, set global}"
+OPS = "over {guard install, with_local_recorder open/close, drop guard i, mem::forget guard i, emit, set global}"
+BOUND4 = "<= 3 local installs, <= 4 program steps (+ scope exits and a final emission) " + OPS
+BOUND5 = "<= 3 local installs, <= 5 program steps " + OPS
+# a bounded unwinding turns a would-be endless memcmp/hash loop (lost constant propagation) into exit 2 instead of a hang
+UNW = ["--default-unwind", "48"]
 
 PLAN = {
     "property": "C01",
     "level": "proof",
     "manifest": {
-        "technique": "Kani/CBMC on the real code: loop-free per-function contracts of LocalRecorderGuard::{new,drop}, set_default_local_recorder, with_local_recorder, with_recorder over every pre-state of the thread-local; one harness per macro arm with recording doubles; bounded symbolic programs (<= 3 installs, <= 6 steps) on the real thread-local, with the history space split into nested / out-of-order-drop / mem::forget classes",
-        "text": "Proved (complete, loop-free): new(r) sets LOCAL to r and saves the old value; Drop restores exactly the saved value; with_local_recorder runs the closure once with LOCAL == r and restores on normal exit; with_recorder invokes the closure exactly once on the local recorder if any, else the installed global, else NOOP_RECORDER (identity checked). Every arm of key_var!/metadata_var!/describe! reached through counter!/gauge!/histogram!/describe_*! (all target:/level: prefix forms, 5 levels, 17 units, literal/computed/owned names, literal/computed/collection labels) delivers exactly one call with exactly the spelled name, labels in order, level, target, module path, unit and description to the innermost local recorder. Bounded (listed, not counted as proved): for every program of <= 6 steps and <= 3 installs whose scopes end innermost-first, the protocol invariant (LOCAL is None or a recorder whose installing borrow is alive) and exact dispatch hold after every step. The same invariant FAILS for programs that drop guards out of order or mem::forget a guard: two separately named obligations, reported as findings (contracts/C01/FINDINGS.md).",
-        "note": "Thread-locality ('never visible to another thread') is the language's contract for thread_local! and is assumed: Kani has no threads. Panic unwinding through a scope is NOT modelled (Kani treats a panic as a failure), so the 'or by a panic' clause is not decided. String contents are short literals; parametricity in string contents is assumed. The history harnesses are bounded (<= 3 installs, <= 6 steps). Global recorder installation relies on C02.",
+        "technique": "Kani/CBMC on the real code: loop-free per-function contracts of LocalRecorderGuard::{new,drop}, set_default_local_recorder, with_local_recorder, with_recorder over every pre-state of the thread-local; one harness per macro arm with recording doubles; bounded symbolic programs (<= 3 installs, <= 4 steps quick / 5 steps thorough) on the real thread-local, with the history space split into nested / out-of-order-drop / mem::forget classes",
+        "text": "Proved (complete, loop-free): new(r) sets LOCAL to r and saves the old value; Drop restores exactly the saved value; with_local_recorder runs the closure once with LOCAL == r and restores on normal exit; with_recorder invokes the closure exactly once on the local recorder if any, else the installed global, else NOOP_RECORDER (identity checked). Every arm of key_var!/metadata_var!/describe! reached through counter!/gauge!/histogram!/describe_*! (all target:/level: prefix forms, 5 levels, 17 units, literal/computed/owned names, literal/computed/collection labels) delivers exactly one call with exactly the spelled name, labels in order, level, target, module path, unit and description to the innermost local recorder. Bounded (listed, not counted as proved): for every program of <= 4 (thorough: 5) steps and <= 3 installs whose scopes end innermost-first, the protocol invariant (LOCAL is None or a recorder whose installing borrow is alive) and exact dispatch hold after every step. The same invariant FAILS for programs that drop guards out of order or mem::forget a guard: two separately named obligations, reported as findings (contracts/C01/FINDINGS.md).",
+        "note": "Thread-locality ('never visible to another thread') is the language's contract for thread_local! and is assumed: Kani has no threads. Panic unwinding through a scope is NOT modelled (Kani treats a panic as a failure), so the 'or by a panic' clause is not decided. String contents are short literals; parametricity in string contents is assumed. The history harnesses are bounded (<= 3 installs, <= 4 steps in the quick tier, 5 in the thorough tier; 6 steps exceeded 14 GB in CBMC). Global recorder installation relies on C02.",
     },
     "min_obligations": {"quick": 18, "thorough": 18},
     "assumptions": [
         "thread-locality of LOCAL_RECORDER (a local recorder is never visible to another thread) is the language's contract for thread_local!; Kani executes a single thread",
         "panic = verification failure; unwinding through a with_local_recorder closure / guard scope is not modelled, so restoration on the panic path is not decided",
         "the borrow that installs a recorder is taken to end when its LocalRecorderGuard is dropped or mem::forget-ed, or when with_local_recorder returns (the shortest extent safe Rust allows)",
-        "history harnesses are bounded: <= 3 installs, <= 6 steps (not counted as proved)",
+        "history harnesses are bounded: <= 3 installs, <= 4 steps (quick) / 5 steps (thorough); not counted as proved",
         "macro harnesses use short literal / selected-constant strings; parametricity in string contents is assumed (symbolic String building is beyond Kani's reach)",
         "atomics sequentially consistent, memory orderings unchecked, Box::leak yields a valid 'static reference (global recorder installation: see C02)",
     ],
@@ -42,29 +46,32 @@ PLAN = {
             {"item": "impl Recorder for NoopRecorder", "file": "metrics/src/recorder/noop.rs"},
         ],
         "harnesses": [
+            # the three history classes first: they are the long-running ones (about 3 min each)
+            H("c01_scopes_nested", "every program whose scopes end innermost-first (closures, guards, nesting, global install): I (LOCAL None or a recorder whose installing borrow is alive) and exact dispatch to the innermost live recorder after every step / at every emit",
+              kind="bounded", bound=BOUND4, covers=2, timeout=1500),
+            H("c01_guard_fifo_drop", "programs where a guard/closure scope ends while not innermost (e.g. guard A, guard B, drop A, drop B): I and exact dispatch from that point on -- FAILS on the pinned tree: finding 1 in FINDINGS.md",
+              kind="bounded", bound=BOUND4, timeout=1500),
+            H("c01_guard_forget", "programs containing mem::forget(guard): I and exact dispatch from that point on -- FAILS on the pinned tree: finding 2 in FINDINGS.md",
+              kind="bounded", bound=BOUND4, timeout=1500),
+            H("c01_scopes_nested5", "as c01_scopes_nested with <= 5 steps", kind="bounded", bound=BOUND5, covers=2, timeout=3000, tier="thorough"),
             H("c01_guard_new", "LocalRecorderGuard::new(r) ensures LOCAL == Some(r) and guard.prev_recorder == old(LOCAL), for LOCAL in {None, A, B}; nothing emitted", covers=2),
             H("c01_guard_drop", "Drop ensures LOCAL == old(self.prev_recorder) for every (prev, LOCAL) in {None,A,B} x {None,A,B,C}", covers=2),
             H("c01_set_default_local_recorder", "guard alive: LOCAL == r and each emission reaches r once; after drop: LOCAL == old(LOCAL) and emissions reach the previous recorder"),
             H("c01_with_local_recorder", "closure runs exactly once with LOCAL == r, its value is returned, LOCAL restored on normal exit"),
             H("c01_with_recorder_precedence", "with_recorder: closure invoked exactly once on local > global > NOOP_RECORDER (identity of the receiving recorder), result passed through", covers=3),
-            H("c01_scopes_nested", "every program whose scopes end innermost-first (closures, guards, nesting, global install): I (LOCAL None or live) and exact dispatch to the innermost live recorder after every step / at every emit",
-              kind="bounded", bound=BOUND, covers=2, timeout=1500),
-            H("c01_guard_fifo_drop", "programs where a guard/closure scope ends while not innermost (e.g. guard A, guard B, drop A, drop B): I and exact dispatch from that point on -- KNOWN TO FAIL, see FINDINGS.md",
-              kind="bounded", bound=BOUND, timeout=1500),
-            H("c01_guard_forget", "programs containing mem::forget(guard): I and exact dispatch from that point on -- KNOWN TO FAIL, see FINDINGS.md",
-              kind="bounded", bound=BOUND, timeout=1500),
-            H("c01_macro_key_literal", "key_var!(literal): one call, name, no labels, level INFO, target == module path == call site module", module=M),
-            H("c01_macro_key_expr", "key_var!(expr): computed &'static str and owned String names", module=M),
-            H("c01_macro_key_literal_labels", "key_var!(literal, k => v literal pairs): labels in spelled order, trailing comma", module=M),
-            H("c01_macro_key_expr_static_labels", "key_var!(expr, literal pairs)", module=M),
-            H("c01_macro_key_expr_labels", "key_var!(expr, expr => expr pairs): constant / variable label parts", module=M),
-            H("c01_macro_key_label_collection", "key_var!(expr, labels): &[(k, v)] and Vec<Label>", module=M),
-            H("c01_macro_target_level", "m!(target: T, level: L, ...): target, each of the 5 levels, module path of the call site, name, labels", module=M),
-            H("c01_macro_target_only", "m!(target: T, ...): level INFO", module=M),
-            H("c01_macro_level_only", "m!(level: L, ...): target == call site module path", module=M),
-            H("c01_macro_describe_unit", "describe_*!(name, unit, desc): one call, name, Some(unit) for all 17 units, description", module=M),
-            H("c01_macro_describe_nounit", "describe_*!(name, desc): unit None", module=M),
-            H("c01_macro_noop", "no local and no global recorder: every form reaches only the no-op recorder (no panic, no effect)", module=M),
+            H("c01_macro_key_literal", "key_var!(literal): one call, name, no labels, level INFO, target == module path == call site module", module=M, args=UNW),
+            H("c01_macro_key_expr", "key_var!(expr): computed &'static str and owned String names", module=M, args=UNW),
+            H("c01_macro_key_literal_labels", "key_var!(literal, k => v literal pairs): labels in spelled order, trailing comma", module=M, args=UNW),
+            H("c01_macro_key_expr_static_labels", "key_var!(expr, literal pairs)", module=M, args=UNW),
+            H("c01_macro_key_expr_labels", "key_var!(expr, expr => expr pairs): constant / variable label parts", module=M, args=UNW),
+            H("c01_macro_key_label_collection", "key_var!(expr, labels): Vec<Label>", module=M, args=UNW),
+            H("c01_macro_key_label_slice", "key_var!(expr, labels): &[(k, v)] (one pair)", module=M, args=UNW),
+            H("c01_macro_target_level", "m!(target: T, level: L, ...): target, level (counter x 5 levels, gauge/histogram x 2), module path of the call site, name, labels", module=M, args=UNW),
+            H("c01_macro_target_only", "m!(target: T, ...): level INFO", module=M, args=UNW),
+            H("c01_macro_level_only", "m!(level: L, ...): target == call site module path", module=M, args=UNW),
+            H("c01_macro_describe_unit", "describe_*!(name, unit, desc): one call, name, Some(unit) for all 17 units, description", module=M, args=UNW),
+            H("c01_macro_describe_nounit", "describe_*!(name, desc): unit None", module=M, args=UNW),
+            H("c01_macro_noop", "no local and no global recorder: every form reaches only the no-op recorder (no panic, no effect)", module=M, args=UNW),
         ],
     }],
     # plain-Rust witnesses (fail on the real crate while the defect is present); run by hand:
